@@ -147,8 +147,34 @@ def run_dask(cfg, split, order):
         if order is not None:
             raise
         outcome = type(ex).__name__
+    if outcome == "ok" and order is None:
+        # the same stream assembled WITHOUT a writer (nothing may be flushed): one in-memory chunk holding header + chunks + footer
+        outcome = _no_writer(cfg, split)
     return {"kind": "dask", "cfg": cfg, "split": split, "order": order or [], "writes": w.writes, "fin": w.fin,
             "hobs": seen["hobs"], "fobs": seen["fobs"], "outcome": outcome}
+
+
+def _no_writer(cfg, split):
+    import dask.bag as db
+    from dask.highlevelgraph import HighLevelGraph
+    from odc.geo.cog import _mpu as M
+
+    stream, parts, hdr, ftr = layout(cfg)
+    groups = [parts] if split == 0 else [parts[:split], parts[split:]]
+    bags = []
+    for gi, grp in enumerate(groups):
+        name = f"nw{gi}"
+        dsk = {(name, i): list(chunks) for i, chunks in enumerate(grp)}
+        bags.append(db.Bag(HighLevelGraph.from_collections(name, dsk, dependencies=[]), name, len(grp)))
+    seen = {"hobs": [], "fobs": []}
+    mk_header, mk_footer = _callbacks(cfg, hdr, ftr, seen)
+    try:
+        root = M.mpu_write(bags if split else bags[0], None, mk_header=mk_header, mk_footer=mk_footer, writes_per_chunk=cfg["wpc"], spill_sz=0).compute(scheduler="synchronous")
+    except Exception as ex:  # noqa: BLE001
+        return "without_a_writer_" + type(ex).__name__
+    if bytes(root.left_data) + bytes(root.data) != bytes(stream) or root.parts or root.started_write:
+        return "without_a_writer_the_assembled_bytes_are_not_the_stream"
+    return "ok"
 
 
 def dask_phase(ctx, cfgs, per_graph):
